@@ -4,6 +4,7 @@ import (
 	"fmt"
 	"math"
 	"reflect"
+	"regexp"
 	"sort"
 	"strings"
 	"sync"
@@ -385,6 +386,20 @@ func runExpr(c Case, res *pbt.Result) {
 	}
 	for _, ctx := range c.Ctxs {
 		sql := sqlFor(ctx, c)
+		if c.Poison {
+			// a foreign query whose text differs from this one in the letter case of its string literals and column
+			// names only runs first in the same process: whatever the engine caches under its text must not be
+			// served to this query (literals and column names are case-sensitive)
+			if tw := caseTwin(sql); tw != sql {
+				if p, perr := open(tw); perr == nil {
+					for _, r := range c.Rows {
+						p.emit(r)
+					}
+					p.s.Stop()
+				}
+				res.Class("poisoned-by-case-twin")
+			}
+		}
 		a, err := open(sql)
 		if a != nil {
 			a.c = c
@@ -553,6 +568,7 @@ func genCase(t *rapid.T) Case {
 	c.Rows = s.rows()
 	c.Perm = s.perm(len(c.Rows))
 	avoidOpenFindings(&c)
+	c.Poison = !c.Names && s.pick("poison", 4) == 0
 	return c
 }
 
@@ -699,4 +715,40 @@ func contains(l []string, s string) bool {
 		}
 	}
 	return false
+}
+
+var twinColRe = regexp.MustCompile(`\b(a|b|f|n|s|u|m)\b`)
+
+// caseTwin swaps the letter case inside string literals and writes the single-letter column names in upper case.
+func caseTwin(sql string) string {
+	var sb strings.Builder
+	seg := func(code string) string { return twinColRe.ReplaceAllStringFunc(code, strings.ToUpper) }
+	start, inq := 0, false
+	for i := 0; i < len(sql); i++ {
+		if sql[i] != '\'' {
+			continue
+		}
+		if !inq {
+			sb.WriteString(seg(sql[start:i]))
+		} else {
+			for _, r := range sql[start:i] {
+				switch {
+				case r >= 'a' && r <= 'z':
+					sb.WriteRune(r - 32)
+				case r >= 'A' && r <= 'Z':
+					sb.WriteRune(r + 32)
+				default:
+					sb.WriteRune(r)
+				}
+			}
+		}
+		sb.WriteByte('\'')
+		start, inq = i+1, !inq
+	}
+	if !inq {
+		sb.WriteString(seg(sql[start:]))
+	} else {
+		sb.WriteString(sql[start:])
+	}
+	return sb.String()
 }
